@@ -4,7 +4,7 @@
    draft-4 verdict L0, for every oracle and every numeric implementation whose order is total.
    The excluded shapes are exactly where the recorded finding classes live, plus the keywords not proved yet. *)
 From Coq Require Import List ZArith Bool Lia Btauto.
-From Verif Require Import Base.Sx Base.GoVal Schema.Ast Schema.Build Schema.Pipeline Schema.Draft4 Schema.PipelineFacts Schema.PipelineTerm Schema.PipelineTermRec Schema.PipelineQuiet Schema.AgreementData Schema.JsonEq.
+From Verif Require Import Base.Sx Base.GoVal Schema.Ast Schema.Build Schema.Pipeline Schema.Draft4 Schema.PipelineFacts Schema.PipelineTerm Schema.PipelineTermRec Schema.PipelineTermDec Schema.PipelineQuiet Schema.AgreementData Schema.JsonEq.
 Import ListNotations.
 Open Scope Z_scope.
 
@@ -250,17 +250,16 @@ Hypothesis Hquiet : forall c p q d, jd d -> oquiet (rec_sp c p q d).
 (* the data on which the sub-validators are known to agree: parts of the current value (Ds) for the sub-schemas that descend
    into it, the current value itself (Du) for those that keep it. With both trivial this is agreement on all data (schemas of
    bounded nesting); with depth bounds it carries the induction for recursive definitions. *)
-Variable Ds Du : goval -> Prop.
+Variable Ds Du : schema -> goval -> Prop.
 
 (* the two recursions agree on a sub-schema: L1 returns a result, L0 a verdict, and they are the same verdict *)
-Definition goodD (D : goval -> Prop) (c : schema) : Prop :=
-  forall p q d, jd d -> D d -> exists r, rec_sp c p q d = Ok r /\ recd c d = Some (r_valid r).
+Definition goodD (D : schema -> goval -> Prop) (c : schema) : Prop :=
+  forall p q d, jd d -> D c d -> exists r, rec_sp c p q d = Ok r /\ recd c d = Some (r_valid r).
 Notation goods := (goodD Ds).
 Notation goodu := (goodD Du).
-Definition jds (d : goval) : Prop := jd d /\ Ds d.
-Definition subm (m : list (str * goval)) : Prop := Forall (fun kv => Ds (snd kv)) m.
+Definition jds (c : schema) (d : goval) : Prop := jd d /\ Ds c d.
 
-Lemma jds_jd l : Forall jds l -> Forall jd l.
+Lemma jds_jd c l : Forall (jds c) l -> Forall jd l.
 Proof. intros H. eapply Forall_impl; [|exact H]. intros a [Ha _]. exact Ha. Qed.
 
 Lemma all_opt_some_forallb' {A} (f : A -> option bool) (g : A -> bool) l :
@@ -274,7 +273,7 @@ Lemma all_opt_cons_some b l : all_opt (Some b :: l) = match all_opt l with Some 
 Proof. reflexivity. Qed.
 
 (* items: one schema for every element *)
-Lemma items_one_agree s1 p sl : goods s1 -> forall l, Forall jds l -> forall i r,
+Lemma items_one_agree s1 p sl : goods s1 -> forall l, Forall (jds s1) l -> forall i r,
   exists r' b, slice_items_one rec_sp s1 p sl l i r = Ok r' /\ all_opt (map (recd s1) l) = Some b /\ r_valid r' = r_valid r && b.
 Proof.
   intros Hg l Hl. induction Hl as [|v t Hv Ht IH]; intros i r.
@@ -287,14 +286,14 @@ Proof.
 Qed.
 
 (* items: positional schemas *)
-Lemma items_tuple_agree p sl : forall ss, Forall goods ss -> forall l, Forall jds l -> forall i r,
+Lemma items_tuple_agree p sl : forall ss, Forall goods ss -> forall l, Forall (fun sv => jds (fst sv) (snd sv)) (combine ss l) -> forall i r,
   exists r' b, slice_items_tuple rec_sp ss p sl l i r = Ok r' /\
                all_opt (map (fun sv => recd (fst sv) (snd sv)) (combine ss l)) = Some b /\ r_valid r' = r_valid r && b.
 Proof.
   induction ss as [|s1 st IH]; intros Hs l Hl i r.
   - exists r, true. destruct l; cbn; rewrite andb_true_r; auto.
   - destruct l as [|v t]; [exists r, true; cbn; rewrite andb_true_r; auto|].
-    inversion Hs as [|x xs Hg Hgs]; subst. inversion Hl as [|y ys Hv Ht]; subst.
+    inversion Hs as [|x xs Hg Hgs]; subst. cbn [combine] in Hl. inversion Hl as [|y ys Hv Ht]; subst. cbn [fst snd] in Hv.
     cbn [slice_items_tuple combine map fst snd]. unfold rec. destruct (Hg (p ++ [SIdx i]) (p ++ [SIdx i]) v (proj1 Hv) (proj2 Hv)) as [x [Hx Hd]]. rewrite Hx. cbn [bind].
     destruct (IH Hgs t Ht (i + 1) (merge_for_slice r sl i x)) as [r' [b [H1 [H2 H3]]]].
     exists r', (r_valid x && b). split; [exact H1|]. split.
@@ -303,7 +302,7 @@ Proof.
 Qed.
 
 (* additionalItems as a schema *)
-Lemma items_additional_agree sa p sl : goods sa -> forall rest, Forall jds rest -> forall i r,
+Lemma items_additional_agree sa p sl : goods sa -> forall rest, Forall (jds sa) rest -> forall i r,
   exists r' b, slice_additional rec_sp sa p sl rest i r = Ok r' /\ all_opt (map (recd sa) rest) = Some b /\ r_valid r' = r_valid r && b.
 Proof.
   intros Hg rest Hl. induction Hl as [|v t Hv Ht IH]; intros i r.
@@ -324,14 +323,23 @@ Definition array_clean (s : schema) : Prop :=
 Lemma Forall_skipn {A} (P : A -> Prop) n l : Forall P l -> Forall P (skipn n l).
 Proof. revert l; induction n as [|n IH]; intros l H; [exact H|]. destruct l; [constructor|]. inversion H; subst. apply IH. assumption. Qed.
 
-Lemma slice_agree p s id l : kids2 goods goodu s -> array_clean s -> Forall jds l ->
+Lemma slice_agree p s id l : kids2 goods goodu s -> array_clean s -> Forall jd l ->
+  (forall s1, s_items_one s = Some s1 -> Forall (Ds s1) l) ->
+  (forall ss, s_items_tuple s = Some ss -> Forall (fun sv => Ds (fst sv) (snd sv)) (combine ss l)) ->
+  (forall a sa ss, s_add_items s = Some (a, Some sa) -> s_items_tuple s = Some ss -> Forall (Ds sa) (skipn (length ss) l)) ->
   exists r, slice_validate N rec_sp p s (VArr id l) = Ok r /\ array_ok N recd s (VArr id l) = Some (r_valid r).
 Proof.
-  intros [K1 [K2 [K3 _]]] [Hex [Hne Hfa]] Hl. unfold slice_validate, array_ok.
+  intros [K1 [K2 [K3 _]]] [Hex [Hne Hfa]] Hl H1s H2s H3s.
+  assert (Hjs : forall c l0, Forall jd l0 -> Forall (Ds c) l0 -> Forall (jds c) l0).
+  { intros c l0 Ha Hb. induction Ha as [|x t Hx Ht IHa]; [constructor|]. inversion Hb; subst. constructor; [split; assumption | apply IHa; assumption]. }
+  assert (Hjc : forall ss l0, Forall jd l0 -> Forall (fun sv => Ds (fst sv) (snd sv)) (combine ss l0) -> Forall (fun sv => jds (fst sv) (snd sv)) (combine ss l0)).
+  { induction ss as [|c ct IHs]; intros l0 Ha Hb; [constructor|]. destruct l0 as [|x t]; [constructor|]. cbn [combine] in *.
+    inversion Ha; subst. inversion Hb; subst. constructor; [split; assumption | apply IHs; assumption]. }
+  unfold slice_validate, array_ok.
   set (size := Z.of_nat (length l)).
   set (U := s_unique s && unique_items N [] l).
   assert (HU : (if s_unique s then negb (has_dup N l) else true) = negb U).
-  { unfold U. destruct (s_unique s); [|reflexivity]. cbn [andb]. rewrite (unique_items_has_dup fin allow_null allow_arr N Heq_sym l (jds_jd l Hl)). reflexivity. }
+  { unfold U. destruct (s_unique s); [|reflexivity]. cbn [andb]. rewrite (unique_items_has_dup fin allow_null allow_arr N Heq_sym l Hl). reflexivity. }
   rewrite HU.
   assert (Hsizes : forall r3,
     r_valid (r_inc (if U then r_add (match s_max_items s with
@@ -350,7 +358,7 @@ Proof.
   destruct (s_items_one s) as [s1|] eqn:E1.
   - (* one schema *)
     destruct Hex as [Hex | Hex]; [discriminate|]. rewrite Hex. cbn [length Z.of_nat].
-    destruct (items_one_agree s1 p id (K1 s1 eq_refl) l Hl 0 new_res) as [r1 [b [H1 [H2 H3]]]]. rewrite H1. cbn [bind slice_items_tuple].
+    destruct (items_one_agree s1 p id (K1 s1 eq_refl) l (Hjs s1 l Hl (H1s s1 eq_refl)) 0 new_res) as [r1 [b [H1 [H2 H3]]]]. rewrite H1. cbn [bind slice_items_tuple].
     assert (Hr3 : exists r3, (match s_add_items s with
                    | Some (allows, sa) =>
                        if 0 <? size
@@ -368,7 +376,7 @@ Proof.
   - (* a tuple, or no items *)
     destruct (s_items_tuple s) as [ss|] eqn:E2.
     + cbn [bind]. destruct ss as [|s0 st]; [contradiction Hne; reflexivity|].
-      destruct (items_tuple_agree p id (s0 :: st) (K2 _ eq_refl) l Hl 0 new_res) as [r2 [b [H1 [H2 H3]]]]. rewrite H1. cbn [bind].
+      destruct (items_tuple_agree p id (s0 :: st) (K2 _ eq_refl) l (Hjc (s0 :: st) l Hl (H2s _ eq_refl)) 0 new_res) as [r2 [b [H1 [H2 H3]]]]. rewrite H1. cbn [bind].
       set (tuple := s0 :: st) in *. set (isz := Z.of_nat (length tuple)).
       assert (Hpos : 0 <? isz = true) by (unfold isz, tuple; cbn [length]; apply Z.ltb_lt; lia).
       rewrite Hpos. cbn [andb].
@@ -379,7 +387,7 @@ Proof.
           destruct (Z.ltb_spec (Z.of_nat n) (Z.of_nat (length t))), (Z.ltb_spec (Z.succ (Z.of_nat n)) (Z.succ (Z.of_nat (length t)))); try reflexivity; lia. }
       destruct (s_add_items s) as [[allows [sa|]]|] eqn:E3.
       * (* schema *) destruct allows; [|exfalso; apply (Hfa sa); reflexivity]. cbn [negb].
-        destruct (items_additional_agree sa p id (K3 _ _ eq_refl) (skipn (length tuple) l) (Forall_skipn jds _ l Hl) isz r2) as [r3 [b3 [G1 [G2 G3]]]].
+        destruct (items_additional_agree sa p id (K3 _ _ eq_refl) (skipn (length tuple) l) (Hjs sa _ (Forall_skipn jd _ l Hl) (H3s _ sa _ eq_refl eq_refl)) isz r2) as [r3 [b3 [G1 [G2 G3]]]].
         destruct (isz <? size) eqn:Els.
         -- rewrite G1. cbn [bind]. eexists. split; [reflexivity|]. rewrite Hsizes, G3, H3, H2, G2. cbn [all_opt r_valid new_res r_errs andb]. f_equal. btauto.
         -- cbn [bind]. eexists. split; [reflexivity|]. rewrite Hsizes, H3, H2.
@@ -411,7 +419,7 @@ Qed.
 
 Definition V (c : schema) (d : goval) : bool := match recd c d with Some b => b | None => true end.
 
-Lemma goodc_V D c p q d : goodD D c -> jd d -> D d -> exists r, rec_sp c p q d = Ok r /\ r_valid r = V c d /\ recd c d = Some (V c d).
+Lemma goodc_V D c p q d : goodD D c -> jd d -> D c d -> exists r, rec_sp c p q d = Ok r /\ r_valid r = V c d /\ recd c d = Some (V c d).
 Proof. intros Hg Hd HD. destruct (Hg p q d Hd HD) as [r [H1 H2]]. exists r. unfold V. rewrite H2. auto. Qed.
 
 Lemma lookup_val_member m k : lookup_val m k = lookup_member m k.
@@ -503,7 +511,7 @@ Proof.
 Qed.
 
 (* L1: the loop over the members of the object *)
-Lemma dependencies_agree s p d all : kids2 goods goodu s -> jd d -> Du d -> forall m main,
+Lemma dependencies_agree s p d all : kids2 goods goodu s -> jd d -> (forall c, In c (uk s) -> Du c d) -> forall m main,
   exists main', dependencies rec_sp s p d m all main = Ok main' /\
                 r_valid main' = r_valid main &&
                 forallb (fun kv => match find_dep (s_deps s) (fst kv) with Some dep => dep_verdict d all dep | None => true end) m.
@@ -512,10 +520,14 @@ Proof.
   cbn [dependencies forallb fst].
   rewrite (find_inline key (s_deps s)).
   destruct (find_dep (s_deps s) key) as [[[ds|] props]|] eqn:E.
-  - assert (Hg : goodu ds).
-    { clear - E Kd. induction Kd as [|[k dep] l Hk Hl IHl]; [discriminate|]. cbn [find_dep] in E.
-      destruct (Z.eqb k key); [inversion E; subst; apply Hk; reflexivity | apply IHl; exact E]. }
-    unfold rec. destruct (goodc_V Du ds (p ++ [SDot key]) (p ++ [SDot key]) d Hg Hd HDu) as [x [Hx [Hv _]]]. rewrite Hx. cbn [bind].
+  - assert (Hg : goodu ds /\ In (Some ds) (map (fun kd => fst (snd kd)) (s_deps s))).
+    { clear - E Kd. induction Kd as [|[k dep] l Hk Hl IHl]; [discriminate|]. cbn [find_dep] in E. cbn [map].
+      destruct (Z.eqb k key); [inversion E; subst; split; [apply Hk; reflexivity | left; reflexivity] | destruct (IHl E) as [A B]; split; [exact A | right; exact B]]. }
+    destruct Hg as [Hg Hin].
+    assert (HDds : Du ds d).
+    { apply HDu. unfold uk. rewrite !in_app_iff. right; right; right; right. apply in_flat_map. apply in_map_iff in Hin. destruct Hin as [kd [E1 E2]].
+      exists kd. split; [exact E2 | rewrite E1; left; reflexivity]. }
+    unfold rec. destruct (goodc_V Du ds (p ++ [SDot key]) (p ++ [SDot key]) d Hg Hd HDds) as [x [Hx [Hv _]]]. rewrite Hx. cbn [bind].
     destruct (IH (merge main (Some x))) as [main' [H1 H2]]. exists main'. split; [exact H1|].
     rewrite H2, r_valid_merge, Hv. unfold dep_verdict. cbn [fst]. btauto.
   - destruct (IH (r_add main (flat_map (fun dk => match lookup_val all dk with Some _ => [] | None => [mkMsg C_DEPENDENCY p [dk]] end) props)))
@@ -529,7 +541,7 @@ Proof.
 Qed.
 
 (* L0: the list of dependencies *)
-Lemma deps_L0 s id m : kids2 goods goodu s -> jd (VObj id m) -> Du (VObj id m) ->
+Lemma deps_L0 s id m : kids2 goods goodu s -> jd (VObj id m) -> (forall c, In c (uk s) -> Du c (VObj id m)) ->
   all_opt (map (fun dep : str * (option schema * list str) =>
                   let '(k, (ds, props)) := dep in
                   match lookup_member m k with
@@ -544,7 +556,9 @@ Proof.
   intros [k [ds props]] Hin. cbn [fst snd]. unfold present, dep_verdict. cbn [fst snd].
   destruct (lookup_member m k); [|reflexivity]. destruct ds as [c|]; [|reflexivity].
   assert (Hg : goodu c) by (apply (proj1 (Forall_forall _ _) Kd (k, (Some c, props)) Hin); reflexivity).
-  destruct (goodc_V Du c [] [] (VObj id m) Hg Hd HDu) as [_ [_ [_ Hr]]]. exact Hr.
+  assert (HDc : Du c (VObj id m)).
+  { apply HDu. unfold uk. rewrite !in_app_iff. right; right; right; right. apply in_flat_map. exists (k, (Some c, props)). split; [exact Hin | left; reflexivity]. }
+  destruct (goodc_V Du c [] [] (VObj id m) Hg Hd HDc) as [_ [_ [_ Hr]]]. exact Hr.
 Qed.
 
 (* ------------------------------------------------------------------ allOf / anyOf / not *)
@@ -552,24 +566,26 @@ Qed.
 Lemma keep_relevant_valid x : r_valid x = true -> r_valid (keep_relevant x) = true.
 Proof. intros H. apply r_valid_nil in H. unfold keep_relevant, r_valid. cbn [r_errs]. rewrite H. reflexivity. Qed.
 
-Lemma count_true_goodc d : jd d -> Du d -> forall vs, Forall goodu vs ->
+Lemma count_true_goodc d : jd d -> forall vs, (forall c, In c vs -> Du c d) -> Forall goodu vs ->
   exists c, count_true (map (fun c => recd c d) vs) = Some c /\ 0 <= c.
 Proof.
-  intros Hd HDu vs Hvs. induction Hvs as [|s1 t Hg Ht [c [Hc Hpos]]]; [exists 0; split; [reflexivity | lia]|].
-  destruct (Hg [] [] d Hd HDu) as [x [_ Hx]]. cbn [map count_true]. rewrite Hx, Hc.
+  intros Hd vs HDu Hvs. induction Hvs as [|s1 t Hg Ht IH]; [exists 0; split; [reflexivity | lia]|].
+  destruct (IH (fun c Hc => HDu c (or_intror Hc))) as [c [Hc Hpos]].
+  destruct (Hg [] [] d Hd (HDu s1 (or_introl eq_refl))) as [x [_ Hx]]. cbn [map count_true]. rewrite Hx, Hc.
   destruct (r_valid x); eexists; split; try reflexivity; lia.
 Qed.
 
-Lemma any_of_agree p d : jd d -> Du d -> forall vs, Forall goodu vs -> forall main keep best,
+Lemma any_of_agree p d : jd d -> forall vs, (forall c, In c vs -> Du c d) -> Forall goodu vs -> forall main keep best,
   exists mk c, any_of rec_sp vs p d main keep best = Ok mk /\
                count_true (map (fun c => recd c d) vs) = Some c /\
                r_valid (fst mk) && r_valid (snd mk) = r_valid main && (0 <? c).
 Proof.
-  intros Hd HDu vs Hvs. induction Hvs as [|s1 t Hg Ht IH]; intros main keep best.
+  intros Hd vs HDu Hvs. induction Hvs as [|s1 t Hg Ht IH]; intros main keep best.
   - eexists. exists 0. cbn [any_of map count_true]. split; [reflexivity|]. split; [reflexivity|]. cbn [fst snd].
     rewrite r_valid_merge, r_valid_add. cbn [Z.ltb Z.compare]. rewrite !andb_false_r. reflexivity.
-  - cbn [any_of map count_true]. unfold rec. destruct (Hg p p d Hd HDu) as [x [Hx Hdx]]. rewrite Hx, Hdx. cbn [bind].
-    destruct (count_true_goodc d Hd HDu t Ht) as [c [Hc Hpos]].
+  - specialize (IH (fun c Hc => HDu c (or_intror Hc))).
+    cbn [any_of map count_true]. unfold rec. destruct (Hg p p d Hd (HDu s1 (or_introl eq_refl))) as [x [Hx Hdx]]. rewrite Hx, Hdx. cbn [bind].
+    destruct (count_true_goodc d Hd t (fun c Hc => HDu c (or_intror Hc)) Ht) as [c [Hc Hpos]].
     destruct (r_valid x) eqn:Ev.
     + eexists. exists (c + 1). rewrite Hc. split; [reflexivity|]. split; [reflexivity|]. cbn [fst snd].
       rewrite r_valid_merge, Ev. cbn [r_valid new_res r_errs]. replace (0 <? c + 1) with true by (symmetry; apply Z.ltb_lt; lia). btauto.
@@ -582,15 +598,16 @@ Proof.
         exists mk', c0'; (split; [exact H1 | split; [exact H2 | exact H3]]).
 Qed.
 
-Lemma all_of_agree p d : jd d -> Du d -> forall vs, Forall goodu vs -> forall main keep validated,
+Lemma all_of_agree p d : jd d -> forall vs, (forall c, In c vs -> Du c d) -> Forall goodu vs -> forall main keep validated,
   exists main' keep' validated' b, all_of rec_sp vs p d main keep validated = Ok (main', keep', validated') /\
     all_opt (map (fun c => recd c d) vs) = Some b /\
     r_valid main' = r_valid main && b /\
     (b = true -> r_valid keep' = r_valid keep /\ validated' = validated + Z.of_nat (length vs)).
 Proof.
-  intros Hd HDu vs Hvs. induction Hvs as [|s1 t Hg Ht IH]; intros main keep validated.
+  intros Hd vs HDu Hvs. induction Hvs as [|s1 t Hg Ht IH]; intros main keep validated.
   - exists main, keep, validated, true. cbn. rewrite andb_true_r, Z.add_0_r. auto.
-  - cbn [all_of map]. unfold rec. destruct (Hg p p d Hd HDu) as [x [Hx Hdx]]. rewrite Hx, Hdx. cbn [bind].
+  - specialize (IH (fun c Hc => HDu c (or_intror Hc))).
+    cbn [all_of map]. unfold rec. destruct (Hg p p d Hd (HDu s1 (or_introl eq_refl))) as [x [Hx Hdx]]. rewrite Hx, Hdx. cbn [bind].
     destruct (IH (merge main (Some x)) (merge keep (Some (keep_relevant x))) (if r_valid x then validated + 1 else validated))
       as [main' [keep' [validated' [b [H1 [H2 [H3 H4]]]]]]].
     exists main', keep', validated', (r_valid x && b). split; [exact H1|]. split; [rewrite all_opt_cons_some, H2; reflexivity|].
@@ -602,16 +619,17 @@ Qed.
 
 (* oneOf: the number of alternatives the code counts as validated is the number draft 4 counts; what is kept aside of the
    failed alternatives (keepRelevantErrors) is empty on this data *)
-Lemma one_of_agree p d : jd d -> Du d -> forall vs, Forall goodu vs -> forall keep first best validated,
+Lemma one_of_agree p d : jd d -> forall vs, (forall c, In c vs -> Du c d) -> Forall goodu vs -> forall keep first best validated,
   r_valid keep = true -> (forall f, first = Some f -> r_valid f = true) ->
   exists first' best' keep' c,
     one_of rec_sp vs p d keep first best validated = Ok (first', best', validated + c, keep') /\
     count_true (map (fun c => recd c d) vs) = Some c /\ 0 <= c /\
     r_valid keep' = true /\ (forall f, first' = Some f -> r_valid f = true).
 Proof.
-  intros Hd HDu vs Hvs. induction Hvs as [|s1 t Hg Ht IH]; intros keep first best validated Hk Hf.
+  intros Hd vs HDu Hvs. induction Hvs as [|s1 t Hg Ht IH]; intros keep first best validated Hk Hf.
   - exists first, best, keep, 0. cbn [one_of map count_true]. rewrite Z.add_0_r. repeat split; auto. lia.
-  - cbn [one_of map count_true]. unfold rec. destruct (Hg p p d Hd HDu) as [x [Hx Hdx]]. rewrite Hx, Hdx. cbn [bind].
+  - specialize (IH (fun c Hc => HDu c (or_intror Hc))).
+    cbn [one_of map count_true]. unfold rec. destruct (Hg p p d Hd (HDu s1 (or_introl eq_refl))) as [x [Hx Hdx]]. rewrite Hx, Hdx. cbn [bind].
     pose proof (Hquiet s1 p p d Hd) as Hq. rewrite Hx in Hq. unfold oquiet in Hq.
     assert (Hk' : r_valid (merge keep (Some (keep_relevant x))) = true) by (rewrite r_valid_merge, Hk, (res_quiet_keep x Hq); reflexivity).
     destruct (r_valid x) eqn:Ev.
@@ -631,10 +649,14 @@ Qed.
 
 Definition comp_clean (s : schema) : Prop := NoDup (map fst (s_deps s)).
 
-Lemma props_agree p s d : kids2 goods goodu s -> comp_clean s -> jd d -> Du d ->
+Lemma props_agree p s d : kids2 goods goodu s -> comp_clean s -> jd d -> (forall c, In c (uk s) -> Du c d) ->
   exists r bc, props_validate rec_sp p s d = Ok r /\ composition_ok recd s d = Some bc /\ r_valid r = bc && deps_verdict s d.
 Proof.
-  intros K Hdeps Hd HDu. unfold comp_clean in Hdeps. pose proof K as [_ [_ [_ [_ [_ [_ [Kall [Kany [Kone [Knot _]]]]]]]]]].
+  intros K Hdeps Hd HDu. unfold comp_clean in Hdeps.
+  assert (HDall : forall c, In c (s_all_of s) -> Du c d) by (intros c Hc; apply HDu; unfold uk; rewrite !in_app_iff; left; exact Hc).
+  assert (HDany : forall c, In c (s_any_of s) -> Du c d) by (intros c Hc; apply HDu; unfold uk; rewrite !in_app_iff; right; left; exact Hc).
+  assert (HDone : forall c, In c (s_one_of s) -> Du c d) by (intros c Hc; apply HDu; unfold uk; rewrite !in_app_iff; right; right; left; exact Hc).
+  assert (HDnot : forall c, s_not s = Some c -> Du c d) by (intros c Hc; apply HDu; unfold uk; rewrite !in_app_iff, Hc; right; right; right; left; left; reflexivity). pose proof K as [_ [_ [_ [_ [_ [_ [Kall [Kany [Kone [Knot _]]]]]]]]]].
   unfold props_validate, composition_ok. cbv zeta.
   (* anyOf *)
   assert (Hany : exists a bany, (match s_any_of s with
@@ -647,7 +669,7 @@ Proof.
                   end) = Some bany /\
                  r_valid (fst a) && (match snd a with Some k => r_valid k | None => true end) = bany).
   { destruct (s_any_of s) as [|v0 vt] eqn:E; [exists (new_res, None), true; auto|].
-    destruct (any_of_agree p d Hd HDu (v0 :: vt) Kany new_res new_res None) as [mk [c [H1 [H2 H3]]]].
+    try rewrite E in HDany. destruct (any_of_agree p d Hd (v0 :: vt) HDany Kany new_res new_res None) as [mk [c [H1 [H2 H3]]]].
     rewrite H1, H2. cbn [bind]. exists (fst mk, Some (snd mk)), (0 <? c). cbn [fst snd]. rewrite H3. auto. }
   destruct Hany as [[main1 keep_any] [bany [Ha [Hda Hva]]]]. rewrite Ha, Hda. cbn [bind fst snd] in *.
   (* oneOf *)
@@ -666,7 +688,7 @@ Proof.
                   end) = Some bone /\
                  r_valid (fst b) && (match snd b with Some k => r_valid k | None => true end) = r_valid main1 && bone).
   { destruct (s_one_of s) as [|v0 vt] eqn:E; [exists (main1, None), true; cbn; rewrite !andb_true_r; auto|].
-    destruct (one_of_agree p d Hd HDu (v0 :: vt) Kone new_res None None 0 eq_refl) as [f' [b' [k' [c [H1 [H2 [H3 [H4 H5]]]]]]]]; [intros f E0; discriminate|].
+    try rewrite E in HDone. destruct (one_of_agree p d Hd (v0 :: vt) HDone Kone new_res None None 0 eq_refl) as [f' [b' [k' [c [H1 [H2 [H3 [H4 H5]]]]]]]]; [intros f E0; discriminate|].
     rewrite H1, H2. cbn [bind]. rewrite Z.add_0_l. eexists. exists (Z.eqb c 1). split; [reflexivity|]. split; [reflexivity|]. cbn [fst snd]. rewrite H4, andb_true_r.
     destruct (Z.eqb_spec c 0) as [e0|n0].
     - subst c. cbn [Z.eqb]. rewrite r_valid_merge, r_valid_add, !andb_false_r. reflexivity.
@@ -686,7 +708,7 @@ Proof.
                  all_opt (map (fun c => recd c d) (s_all_of s)) = Some ball /\
                  r_valid (fst cc) && (match snd cc with Some k => r_valid k | None => true end) = r_valid main2 && ball).
   { destruct (s_all_of s) as [|v0 vt] eqn:E; [exists (main2, None), true; cbn; rewrite !andb_true_r; auto|].
-    destruct (all_of_agree p d Hd HDu (v0 :: vt) Kall main2 new_res 0) as [main' [keep' [validated' [b [H1 [H2 [H3 H4]]]]]]].
+    try rewrite E in HDall. destruct (all_of_agree p d Hd (v0 :: vt) HDall Kall main2 new_res 0) as [main' [keep' [validated' [b [H1 [H2 [H3 H4]]]]]]].
     cbv zeta. rewrite H1, H2. cbn [bind]. eexists. exists b. split; [reflexivity|]. split; [reflexivity|]. cbn [fst snd].
     destruct b.
     - destruct (H4 eq_refl) as [G1 G2]. rewrite G2, G1. cbn [length]. rewrite Z.add_0_l, Nat2Z.inj_succ.
@@ -707,7 +729,7 @@ Proof.
                  (match s_not s with None => Some true | Some ns => match recd ns d with Some b => Some (negb b) | None => None end end) = Some bnot /\
                  r_valid main4 = r_valid main3 && bnot).
   { destruct (s_not s) as [ns|] eqn:E; [|exists main3, true; rewrite andb_true_r; auto].
-    unfold rec. destruct (Knot ns eq_refl p p d Hd HDu) as [x [Hx Hdx]]. rewrite Hx, Hdx. cbn [bind].
+    unfold rec. destruct (Knot ns eq_refl p p d Hd (HDnot ns eq_refl)) as [x [Hx Hdx]]. rewrite Hx, Hdx. cbn [bind].
     eexists. exists (negb (r_valid x)). split; [reflexivity|]. split; [reflexivity|].
     destruct (r_valid x); [rewrite r_valid_add|]; cbn [negb]; btauto. }
   destruct Hnot as [main4 [bnot [Hn [Hdn Hvn]]]]. rewrite Hn, Hdn. cbn [bind].
@@ -748,13 +770,7 @@ Definition object_clean (s : schema) : Prop :=
   NoDup (map fst (s_props s)) /\
   (forall sa, s_add_props s <> Some (false, Some sa)).
 
-Definition plain_members (m : list (str * goval)) : Prop := Forall (fun kv => plain_key (fst kv) /\ jds (snd kv)) m.
-
-Lemma plain_members_of m : Forall (fun kv => plain_key (fst kv) /\ jd (snd kv)) m -> subm m -> plain_members m.
-Proof.
-  intros H1 H2. induction H1 as [|kv t [Hk Hj] Ht IH]; [constructor|]. inversion H2 as [|y ys Hy Hys]; subst.
-  constructor; [split; [exact Hk | split; [exact Hj | exact Hy]] | apply IH; exact Hys].
-Qed.
+Definition plain_members (m : list (str * goval)) : Prop := Forall (fun kv => plain_key (fst kv) /\ jd (snd kv)) m.
 
 (* ---- patternProperties ---- *)
 Definition pmatch (k : str) (pp : str * schema) : bool := o_re_match OR (fst pp) k.
@@ -763,31 +779,33 @@ Definition PVl (pps : list (str * schema)) (k : str) (v : goval) : bool := foral
 Definition PV (s : schema) (k : str) (v : goval) : bool := PVl (s_pat_props s) k v.
 
 Lemma pattern_property_agree pps p key value :
-  Forall (fun pp => o_re_ok OR (fst pp) = true) pps -> Forall (fun pp => goods (snd pp)) pps -> jds value ->
+  Forall (fun pp => o_re_ok OR (fst pp) = true) pps -> Forall (fun pp => goods (snd pp)) pps -> jd value ->
+  (forall pp, In pp pps -> pmatch key pp = true -> Ds (snd pp) value) ->
   forall r matched pats, exists r' M L,
     pattern_property OR rec_sp pps p key value r matched pats = Ok (M, L, r') /\
     M = matched || existsb (pmatch key) pps /\ L = pats ++ filter (pmatch key) pps /\
     r_valid r' = r_valid r && PVl pps key value.
 Proof.
-  intros Hok Hg Hv. induction pps as [|[k ps] t IH]; intros r matched pats.
+  intros Hok Hg Hv HD. induction pps as [|[k ps] t IH]; intros r matched pats.
   - exists r, matched, pats. cbn [pattern_property existsb filter PVl forallb]. rewrite orb_false_r, app_nil_r, andb_true_r. auto.
   - inversion Hok as [|x xs Hk Hks]; subst. inversion Hg as [|y ys Hgp Hgs]; subst. cbn [fst snd] in Hk, Hgp.
     cbn [pattern_property existsb filter PVl forallb]. change (pmatch key (k, ps)) with (o_re_match OR k key). cbn [fst snd]. rewrite Hk. cbn [negb].
     destruct (o_re_match OR k key) eqn:Em; cbn [negb orb].
-    + unfold rec. destruct (goodc_V Ds ps (p ++ [SDot key]) (p ++ [SDot key]) value Hgp (proj1 Hv) (proj2 Hv)) as [x [Hx [Hvx _]]]. rewrite Hx. cbn [bind].
-      destruct (IH Hks Hgs (merge r (Some x)) true (pats ++ [(k, ps)])) as [r' [M [L [H1 [H2 [H3 H4]]]]]].
+    + unfold rec. destruct (goodc_V Ds ps (p ++ [SDot key]) (p ++ [SDot key]) value Hgp Hv (HD (k, ps) (or_introl eq_refl) Em)) as [x [Hx [Hvx _]]]. rewrite Hx. cbn [bind].
+      destruct (IH Hks Hgs (fun pp Hpp => HD pp (or_intror Hpp)) (merge r (Some x)) true (pats ++ [(k, ps)])) as [r' [M [L [H1 [H2 [H3 H4]]]]]].
       exists r', M, L. split; [exact H1|]. split; [rewrite H2, orb_true_r; reflexivity|]. split; [rewrite H3, <- app_assoc; reflexivity|].
       rewrite H4, r_valid_merge, Hvx. fold (PVl t key value). btauto.
-    + destruct (IH Hks Hgs r matched pats) as [r' [M [L [H1 [H2 [H3 H4]]]]]]. exists r', M, L. repeat split; assumption.
+    + destruct (IH Hks Hgs (fun pp Hpp => HD pp (or_intror Hpp)) r matched pats) as [r' [M [L [H1 [H2 [H3 H4]]]]]]. exists r', M, L. repeat split; assumption.
 Qed.
 
-Lemma vpp_agree s p key value r : pats_ok s -> kids2 goods goodu s -> jds value ->
+Lemma vpp_agree s p key value r : pats_ok s -> kids2 goods goodu s -> jd value ->
+  (forall pp, In pp (s_pat_props s) -> pmatch key pp = true -> Ds (snd pp) value) ->
   exists r', validate_pattern_property OR rec_sp s p key value r = Ok (matched_any s key, filter (pmatch key) (s_pat_props s), r') /\
              r_valid r' = r_valid r && PV s key value.
 Proof.
-  intros [Hok _] [_ [_ [_ [_ [Kpp _]]]]] Hv. unfold validate_pattern_property, matched_any, PV.
+  intros [Hok _] [_ [_ [_ [_ [Kpp _]]]]] Hv HD. unfold validate_pattern_property, matched_any, PV.
   destruct (s_pat_props s) as [|pp0 ppt] eqn:E; [exists r; cbn; rewrite andb_true_r; auto|].
-  destruct (pattern_property_agree (pp0 :: ppt) p key value Hok Kpp Hv r false []) as [r' [M [L [H1 [H2 [H3 H4]]]]]].
+  destruct (pattern_property_agree (pp0 :: ppt) p key value Hok Kpp Hv HD r false []) as [r' [M [L [H1 [H2 [H3 H4]]]]]].
   exists r'. rewrite H1, H2, H3. auto.
 Qed.
 
@@ -795,27 +813,30 @@ Lemma forallb_filter_implied {A} (m v : A -> bool) l :
   forallb (fun x => negb (m x) || v x) l && forallb v (filter m l) = forallb (fun x => negb (m x) || v x) l.
 Proof. induction l as [|x t IH]; [reflexivity|]. cbn [forallb filter]. destruct (m x); cbn [negb orb forallb]; rewrite <- IH; btauto. Qed.
 
-Lemma merge_patterns_agree s p obj key value : pats_ok s -> kids2 goods goodu s -> jds value -> forall pats,
-  (forall pp, In pp pats -> In pp (s_pat_props s)) -> forall r,
+Lemma merge_patterns_agree s p obj key value : pats_ok s -> kids2 goods goodu s -> jd value -> forall pats,
+  (forall pp, In pp pats -> In pp (s_pat_props s) /\ Ds (snd pp) value) -> forall r,
   exists r', merge_patterns rec_sp pats s p obj key value r = Ok r' /\ r_valid r' = r_valid r && forallb (fun pp => V (snd pp) value) pats.
 Proof.
   intros [_ Hnd] [_ [_ [_ [_ [Kpp _]]]]] Hv. induction pats as [|[pn ps'] t IH]; intros Hin r; [exists r; cbn; rewrite andb_true_r; auto|].
   cbn [merge_patterns forallb snd].
-  assert (Hl : lookup_schema (s_pat_props s) pn = Some ps') by (apply (lookup_schema_in _ pn ps' Hnd); apply Hin; left; reflexivity).
+  assert (Hl : lookup_schema (s_pat_props s) pn = Some ps') by (apply (lookup_schema_in _ pn ps' Hnd); apply (Hin (pn, ps')); left; reflexivity).
   rewrite Hl. assert (Hg : goods ps') by (apply (lookup_schema_forall goods _ _ _ Kpp Hl)).
-  unfold rec. destruct (goodc_V Ds ps' (p ++ [SDot key]) (p ++ [SDot key]) value Hg (proj1 Hv) (proj2 Hv)) as [x [Hx [Hvx _]]]. rewrite Hx. cbn [bind].
+  unfold rec. destruct (goodc_V Ds ps' (p ++ [SDot key]) (p ++ [SDot key]) value Hg Hv (proj2 (Hin (pn, ps') (or_introl eq_refl)))) as [x [Hx [Hvx _]]]. rewrite Hx. cbn [bind].
   destruct (IH (fun pp Hpp => Hin pp (or_intror Hpp)) (merge_for_field r obj key x)) as [r' [H1 H2]]. exists r'. split; [exact H1|].
   rewrite H2, r_valid_merge_for_field, Hvx. btauto.
 Qed.
 
-Lemma pattern_loop_agree s p obj m : pats_ok s -> kids2 goods goodu s -> plain_members m -> forall r,
+Lemma pattern_loop_agree s p obj m : pats_ok s -> kids2 goods goodu s -> plain_members m ->
+  (forall k v pp, In (k, v) m -> In pp (s_pat_props s) -> pmatch k pp = true -> Ds (snd pp) v) -> forall r,
   exists r', pattern_loop OR rec_sp s p obj m r = Ok r' /\ r_valid r' = r_valid r && forallb (fun kv => PV s (fst kv) (snd kv)) m.
 Proof.
-  intros Hp K Hm. induction Hm as [|[k v] t [_ Hjv] Ht IH]; intros r; [exists r; cbn; rewrite andb_true_r; auto|]. cbn [snd] in Hjv.
-  cbn [pattern_loop forallb fst snd]. destruct (vpp_agree s p k v r Hp K Hjv) as [r1 [H1 Hv1]]. rewrite H1. cbn [bind].
+  intros Hp K Hm. induction Hm as [|[k v] t [_ Hjv] Ht IH]; intros HD r; [exists r; cbn; rewrite andb_true_r; auto|]. cbn [snd] in Hjv.
+  specialize (IH (fun k0 v0 pp Hin => HD k0 v0 pp (or_intror Hin))).
+  cbn [pattern_loop forallb fst snd]. destruct (vpp_agree s p k v r Hp K Hjv (fun pp => HD k v pp (or_introl eq_refl))) as [r1 [H1 Hv1]]. rewrite H1. cbn [bind].
   destruct (has_prop s k || negb (matched_any s k)).
   - destruct (IH r1) as [r' [G1 G2]]. exists r'. split; [exact G1|]. rewrite G2, Hv1. btauto.
-  - destruct (merge_patterns_agree s p obj k v Hp K Hjv (filter (pmatch k) (s_pat_props s)) (fun pp Hpp => proj1 (proj1 (filter_In _ _ _) Hpp)) r1) as [r2 [G1 G2]].
+  - destruct (merge_patterns_agree s p obj k v Hp K Hjv (filter (pmatch k) (s_pat_props s))
+                (fun pp Hpp => conj (proj1 (proj1 (filter_In _ _ _) Hpp)) (HD k v pp (or_introl eq_refl) (proj1 (proj1 (filter_In _ _ _) Hpp)) (proj2 (proj1 (filter_In _ _ _) Hpp)))) r1) as [r2 [G1 G2]].
     rewrite G1. cbn [bind]. destruct (IH r2) as [r' [G3 G4]]. exists r'. split; [exact G3|].
     rewrite G4, G2, Hv1. unfold PV, PVl.
     pose proof (forallb_filter_implied (pmatch k) (fun pp => V (snd pp) v) (s_pat_props s)) as E.
@@ -840,19 +861,22 @@ Qed.
 Definition add_rule (s : schema) (v : goval) : bool :=
   match s_add_props s with Some (_, Some sa) => V sa v | _ => true end.
 
-Lemma additional_agree s p obj m : kids2 goods goodu s -> pats_ok s -> plain_members m -> forall r,
+Lemma additional_agree s p obj m : kids2 goods goodu s -> pats_ok s -> plain_members m ->
+  (forall k v pp, In (k, v) m -> In pp (s_pat_props s) -> pmatch k pp = true -> Ds (snd pp) v) ->
+  (forall k v a sa, In (k, v) m -> s_add_props s = Some (a, Some sa) -> has_prop s k = false -> matched_any s k = false -> Ds sa v) -> forall r,
   exists r', additional_properties OR rec_sp s p obj m r = Ok r' /\
              r_valid r' = r_valid r && forallb (fun kv => has_prop s (fst kv) || (PV s (fst kv) (snd kv) && (matched_any s (fst kv) || add_rule s (snd kv)))) m.
 Proof.
-  intros K Hp Hm. pose proof K as [_ [_ [_ [_ [_ [Ka _]]]]]]. induction Hm as [|[k v] t [_ Hjv] Ht IH]; intros r; [exists r; cbn; rewrite andb_true_r; auto|].
-  cbn [additional_properties forallb fst snd]. cbn [snd] in Hjv. destruct (has_prop s k).
+  intros K Hp Hm. pose proof K as [_ [_ [_ [_ [_ [Ka _]]]]]]. induction Hm as [|[k v] t [_ Hjv] Ht IH]; intros HDp HDa r; [exists r; cbn; rewrite andb_true_r; auto|].
+  specialize (IH (fun k0 v0 pp Hin => HDp k0 v0 pp (or_intror Hin)) (fun k0 v0 a sa Hin => HDa k0 v0 a sa (or_intror Hin))).
+  cbn [additional_properties forallb fst snd]. cbn [snd] in Hjv. destruct (has_prop s k) eqn:Ehp.
   - destruct (IH r) as [r' [H1 H2]]. exists r'. split; [exact H1 | rewrite H2; reflexivity].
-  - destruct (vpp_agree s p k v r Hp K Hjv) as [r1 [G1 Hv1]]. rewrite G1. cbn [bind orb].
-    destruct (matched_any s k).
+  - destruct (vpp_agree s p k v r Hp K Hjv (fun pp => HDp k v pp (or_introl eq_refl))) as [r1 [G1 Hv1]]. rewrite G1. cbn [bind orb].
+    destruct (matched_any s k) eqn:Ema.
     + destruct (IH r1) as [r' [H1 H2]]. exists r'. split; [exact H1|]. rewrite H2, Hv1. btauto.
     + destruct (s_add_props s) as [[a [sa|]]|] eqn:E.
       * assert (Har : add_rule s v = V sa v) by (unfold add_rule; rewrite E; reflexivity).
-        unfold rec. destruct (goodc_V Ds sa (p ++ [SDot k]) (p ++ [SDot k]) v (Ka a sa eq_refl) (proj1 Hjv) (proj2 Hjv)) as [x [Hx [Hv _]]]. rewrite Hx. cbn [bind].
+        unfold rec. destruct (goodc_V Ds sa (p ++ [SDot k]) (p ++ [SDot k]) v (Ka a sa eq_refl) Hjv (HDa k v a sa (or_introl eq_refl) eq_refl Ehp Ema)) as [x [Hx [Hv _]]]. rewrite Hx. cbn [bind].
         destruct (IH (merge_for_field r1 obj k x)) as [r' [H1 H2]]. exists r'. split; [exact H1|].
         rewrite H2, r_valid_merge_for_field, Hv, Har, Hv1. btauto.
       * assert (Har : add_rule s v = true) by (unfold add_rule; rewrite E; reflexivity).
@@ -862,19 +886,20 @@ Proof.
 Qed.
 
 Lemma properties_agree p obj m : plain_members m -> forall props,
-  Forall (fun kc => goods (snd kc)) props -> forall r created,
+  Forall (fun kc => goods (snd kc)) props -> (forall k ps v, In (k, ps) props -> lookup_val m k = Some v -> Ds ps v) -> forall r created,
   exists r' created', properties_schema opt rec_sp props p obj m r created = Ok (r', created') /\
              (forall k, In k created' -> In k created \/ exists ps, In (k, ps) props /\ s_default ps <> None) /\
              r_valid r' = r_valid r && forallb (fun kp => match lookup_val m (fst kp) with Some v => V (snd kp) v | None => true end) props.
 Proof.
-  intros Hm props Hg. induction Hg as [|[pname ps] t Hgp Ht IH]; intros r created.
+  intros Hm props Hg. induction Hg as [|[pname ps] t Hgp Ht IH]; intros HD r created.
   { exists r, created. cbn. rewrite andb_true_r. split; [reflexivity|]. split; [intros k Hk; left; exact Hk | reflexivity]. }
+  specialize (IH (fun k0 ps0 v0 Hin => HD k0 ps0 v0 (or_intror Hin))).
   cbn [properties_schema forallb fst snd]. cbv zeta. cbn [snd] in Hgp.
   destruct (lookup_val m pname) as [v|] eqn:E.
-  - assert (Hjv : jds v).
+  - assert (Hjv : jd v).
     { clear - E Hm. induction Hm as [|[k' v'] t' [_ Hj] Ht' IHm]; [discriminate|]. cbn [lookup_val] in E.
       destruct (Z.eqb pname k'); [inversion E; subst; exact Hj | apply IHm; exact E]. }
-    unfold rec. match goal with |- context [rec_sp ps ?rn ?rn v] => destruct (goodc_V Ds ps rn rn v Hgp (proj1 Hjv) (proj2 Hjv)) as [x [Hx [Hv _]]] end.
+    unfold rec. match goal with |- context [rec_sp ps ?rn ?rn v] => destruct (goodc_V Ds ps rn rn v Hgp Hjv (HD pname ps v (or_introl eq_refl) E)) as [x [Hx [Hv _]]] end.
     rewrite Hx. cbn [bind]. destruct (IH (merge_for_field r obj pname x) created) as [r' [c' [H1 [Hc H2]]]].
     exists r', c'. split; [exact H1|]. split.
     + intros k Hk. destruct (Hc k Hk) as [Hk' | [ps0 [Hin Hd]]]; [left; exact Hk' | right; exists ps0; split; [right; exact Hin | exact Hd]].
@@ -938,22 +963,39 @@ Proof.
 Qed.
 
 (* L0 on the patterns that match a member name *)
-Lemma by_pat_agree pps k v : Forall (fun pp => goods (snd pp)) pps -> jds v ->
+Lemma by_pat_agree pps k v : Forall (fun pp => goods (snd pp)) pps -> jd v -> (forall pp, In pp pps -> pmatch k pp = true -> Ds (snd pp) v) ->
   all_opt (flat_map (fun pp => if o_re_match OR (fst pp) k then [recd (snd pp) v] else []) pps) = Some (PVl pps k v) /\
   (match flat_map (fun pp => if o_re_match OR (fst pp) k then [recd (snd pp) v] else []) pps with [] => false | _ => true end) = existsb (pmatch k) pps.
 Proof.
-  intros Hg Hv. induction Hg as [|[pk ps] t Hgp Ht [IH1 IH2]]; [split; reflexivity|]. cbn [flat_map PVl forallb existsb]. change (pmatch k (pk, ps)) with (o_re_match OR pk k). cbn [fst snd] in *.
-  destruct (o_re_match OR pk k); cbn [negb orb app].
-  - destruct (goodc_V Ds ps [] [] v Hgp (proj1 Hv) (proj2 Hv)) as [_ [_ [_ Hr]]]. rewrite Hr. cbn [all_opt]. rewrite IH1. split; reflexivity.
+  intros Hg Hv. induction Hg as [|[pk ps] t Hgp Ht IH]; intros HD; [split; reflexivity|].
+  destruct (IH (fun pp Hpp => HD pp (or_intror Hpp))) as [IH1 IH2].
+  cbn [flat_map PVl forallb existsb]. change (pmatch k (pk, ps)) with (o_re_match OR pk k). cbn [fst snd] in *.
+  destruct (o_re_match OR pk k) eqn:Em; cbn [negb orb app].
+  - destruct (goodc_V Ds ps [] [] v Hgp Hv (HD (pk, ps) (or_introl eq_refl) Em)) as [_ [_ [_ Hr]]]. rewrite Hr. cbn [all_opt]. rewrite IH1. split; reflexivity.
   - split; [exact IH1 | exact IH2].
 Qed.
 
-Lemma object_agree p s id m : kids2 goods goodu s -> object_clean s -> jd (VObj id m) -> Du (VObj id m) -> subm m ->
+(* the applications of a sub-schema to a part of the value that the two sides perform *)
+Inductive app_g (s : schema) : goval -> schema -> goval -> Prop :=
+| ag_one id l c v : s_items_one s = Some c -> In v l -> app_g s (VArr id l) c v
+| ag_tuple id l cs c v : s_items_tuple s = Some cs -> In (c, v) (combine cs l) -> app_g s (VArr id l) c v
+| ag_additems id l a c cs v : s_add_items s = Some (a, Some c) -> s_items_tuple s = Some cs -> In v (skipn (length cs) l) -> app_g s (VArr id l) c v
+| ag_prop id m k c v : In (k, c) (s_props s) -> lookup_val m k = Some v -> app_g s (VObj id m) c v
+| ag_pat id m pp k v : In pp (s_pat_props s) -> In (k, v) m -> pmatch k pp = true -> app_g s (VObj id m) (snd pp) v
+| ag_addprop id m a c k v : s_add_props s = Some (a, Some c) -> In (k, v) m -> has_prop s k = false -> matched_any s k = false -> app_g s (VObj id m) c v.
+
+Lemma object_agree p s id m : kids2 goods goodu s -> object_clean s -> jd (VObj id m) -> (forall c, In c (uk s) -> Du c (VObj id m)) ->
+  (forall c v, app_g s (VObj id m) c v -> Ds c v) ->
   exists r, object_validate OR opt rec_sp p s (VObj id m) = Ok r /\
             object_ok OR recd s (VObj id m) = Some (r_valid r && deps_verdict s (VObj id m)).
 Proof.
-  intros K [Hpp [Hdef [Hnd Hfa]]] Hjd HDu Hsub. pose proof (deps_L0 s id m K Hjd HDu) as Hdeps. apply jd_obj in Hjd. destruct Hjd as [Hm0 Hndm].
-  pose proof (plain_members_of m Hm0 Hsub) as Hm.
+  intros K [Hpp [Hdef [Hnd Hfa]]] Hjd HDu Hsub. pose proof (deps_L0 s id m K Hjd HDu) as Hdeps. apply jd_obj in Hjd. destruct Hjd as [Hm Hndm].
+  assert (HDp : forall k v pp, In (k, v) m -> In pp (s_pat_props s) -> pmatch k pp = true -> Ds (snd pp) v)
+    by (intros k v pp H1 H2 H3; apply Hsub; apply (ag_pat s id m pp k v H2 H1 H3)).
+  assert (HDa : forall k v a sa, In (k, v) m -> s_add_props s = Some (a, Some sa) -> has_prop s k = false -> matched_any s k = false -> Ds sa v)
+    by (intros k v a sa H1 H2 H3 H4; apply Hsub; apply (ag_addprop s id m a sa k v H2 H1 H3 H4)).
+  assert (HDr : forall k ps v, In (k, ps) (s_props s) -> lookup_val m k = Some v -> Ds ps v)
+    by (intros k ps v H1 H2; apply Hsub; apply (ag_prop s id m k ps v H1 H2)).
   pose proof K as [_ [_ [_ [Kp [Kpp [Ka _]]]]]].
   unfold object_validate, object_ok. cbv zeta. set (n := Z.of_nat (length m)).
   (* the verdict of L0 on the members *)
@@ -976,8 +1018,8 @@ Proof.
                                    | _ => []
                                    end))) m) = Some (forallb member_b m)).
   { apply all_opt_some_forallb. intros [k v] Hin. unfold member_b, PV, matched_any, has_prop, arule. cbn [fst snd].
-    assert (Hjv : jds v) by (apply (proj2 (proj1 (Forall_forall _ m) Hm (k, v) Hin))).
-    destruct (by_pat_agree (s_pat_props s) k v Kpp Hjv) as [Hbp Hany].
+    assert (Hjv : jd v) by (apply (proj2 (proj1 (Forall_forall _ m) Hm (k, v) Hin))).
+    destruct (by_pat_agree (s_pat_props s) k v Kpp Hjv (fun pp => HDp k v pp Hin)) as [Hbp Hany].
     rewrite !all_opt_app, Hbp.
     assert (Hdesc : (match (match lookup_schema (s_props s) k with Some ps => [recd ps v] | None => [] end),
                            (flat_map (fun pp => if o_re_match OR (fst pp) k then [recd (snd pp) v] else []) (s_pat_props s))
@@ -988,10 +1030,13 @@ Proof.
     rewrite Hdesc.
     destruct (lookup_schema (s_props s) k) as [ps|] eqn:E.
     - assert (Hg : goods ps) by (apply (lookup_schema_forall goods _ _ _ Kp E)).
-      destruct (goodc_V Ds ps [] [] v Hg (proj1 Hjv) (proj2 Hjv)) as [_ [_ [_ Hr]]]. rewrite Hr. cbn [orb all_opt]. apply f_equal. btauto.
-    - cbn [orb all_opt]. destruct (existsb (pmatch k) (s_pat_props s)); cbn [orb all_opt]; [apply f_equal; btauto|].
+      assert (HDps : Ds ps v).
+      { apply (HDr k ps v); [apply (lookup_schema_in _ k ps Hnd); exact E|]. apply (proj2 (lookup_val_in m k v Hndm)). exact Hin. }
+      destruct (goodc_V Ds ps [] [] v Hg Hjv HDps) as [_ [_ [_ Hr]]]. rewrite Hr. cbn [orb all_opt]. apply f_equal. btauto.
+    - cbn [orb all_opt]. destruct (existsb (pmatch k) (s_pat_props s)) eqn:Ema; cbn [orb all_opt]; [apply f_equal; btauto|].
       destruct (s_add_props s) as [[a [sa|]]|] eqn:Ea.
-      + destruct (goodc_V Ds sa [] [] v (Ka a sa eq_refl) (proj1 Hjv) (proj2 Hjv)) as [_ [_ [_ Hr]]]. rewrite Hr. destruct a; cbn [all_opt]; apply f_equal; btauto.
+      + assert (HDsa : Ds sa v) by (apply (HDa k v a sa Hin eq_refl); [unfold has_prop; rewrite E; reflexivity | exact Ema]).
+        destruct (goodc_V Ds sa [] [] v (Ka a sa eq_refl) Hjv HDsa) as [_ [_ [_ Hr]]]. rewrite Hr. destruct a; cbn [all_opt]; apply f_equal; btauto.
       + destruct a; cbn [all_opt]; apply f_equal; btauto.
       + cbn [all_opt]. apply f_equal. btauto. }
   rewrite Hmem, Hdeps. set (dv := deps_verdict s (VObj id m)).
@@ -1016,17 +1061,17 @@ Proof.
                r_valid r1 = forallb (fun kv => has_prop s (fst kv) || (PV s (fst kv) (snd kv) && (matched_any s (fst kv) || arule (snd kv))) ||
                                                (match s_add_props s with Some (false, None) => matched_any s (fst kv) | _ => false end)) m).
   { destruct (s_add_props s) as [[[|] o]|] eqn:Ea.
-    - destruct (additional_agree s p id m K Hpp Hm new_res) as [r1 [G1 G2]]. exists r1. split; [exact G1|]. rewrite G2. unfold add_rule, arule. rewrite ?Ea.
+    - rewrite <- Ea in HDa. destruct (additional_agree s p id m K Hpp Hm HDp HDa new_res) as [r1 [G1 G2]]. exists r1. split; [exact G1|]. rewrite G2. unfold add_rule, arule. rewrite ?Ea.
       cbn [r_valid new_res r_errs andb]. apply forallb_ext_in. intros [k v] _. rewrite orb_false_r. destruct o; reflexivity.
     - destruct o as [sa|]; [exfalso; apply (Hfa sa); reflexivity|]. eexists. split; [reflexivity|].
       rewrite (no_additional_agree s p m Hpp Hm). cbn [r_valid new_res r_errs andb]. apply forallb_ext_in. intros [k v] _. unfold arule. rewrite ?Ea. cbn [fst snd].
       destruct (has_prop s k), (matched_any s k), (PV s k v); reflexivity.
-    - destruct (additional_agree s p id m K Hpp Hm new_res) as [r1 [G1 G2]]. exists r1. split; [exact G1|]. rewrite G2. unfold add_rule, arule. rewrite ?Ea.
+    - rewrite <- Ea in HDa. destruct (additional_agree s p id m K Hpp Hm HDp HDa new_res) as [r1 [G1 G2]]. exists r1. split; [exact G1|]. rewrite G2. unfold add_rule, arule. rewrite ?Ea.
       cbn [r_valid new_res r_errs andb]. apply forallb_ext_in. intros [k v] _. rewrite orb_false_r. reflexivity. }
   destruct H1 as [r1 [G1 Hv1]]. rewrite G1. cbn [bind].
-  destruct (properties_agree p id m Hm (s_props s) Kp r1 []) as [r2 [created [G2 [Hcr Hv2]]]]. rewrite G2. cbn [bind].
+  destruct (properties_agree p id m Hm (s_props s) Kp HDr r1 []) as [r2 [created [G2 [Hcr Hv2]]]]. rewrite G2. cbn [bind].
   match goal with |- exists r, pattern_loop _ _ _ _ _ _ ?r3 = Ok r /\ _ =>
-    destruct (pattern_loop_agree s p id m Hpp K Hm r3) as [r4 [G4 Hv4]]
+    destruct (pattern_loop_agree s p id m Hpp K Hm HDp r3) as [r4 [G4 Hv4]]
   end.
   exists r4. split; [exact G4|]. f_equal. rewrite Hv4.
   rewrite (required_agree s p m r2 created).
@@ -1048,26 +1093,47 @@ Qed.
 
 Definition nullsafe (s : schema) : Prop := s_all_of s = [] /\ s_any_of s = [] /\ s_one_of s = [] /\ s_not s = None.
 
-Definition local_clean (s : schema) : Prop :=
+(* a format next to a numeric type is harmless; elsewhere the string / array shortcut of the type validator (type.go:200, finding
+   class type-format-shortcut) accepts every string and every array: the value this level is applied to must then be one the type
+   list accepts anyway.  This is the one condition that depends on the value: it is asked of every (sub-schema, part of the value)
+   pair the validation visits ([app_g] and the composition members), see Schema/AgreementRec.v *)
+Definition fmt_fits (s : schema) (d : goval) : Prop :=
+  s_format s = 0 \/ contains k_number (s_types s) || contains k_integer (s_types s) = true \/
+  (contains k_number (s_types s) || contains k_integer (s_types s) = false /\ s_types s <> [] /\
+   ((exists x, d = VStr x) -> contains k_string (s_types s) = true) /\
+   ((exists id l, d = VArr id l) -> contains k_array (s_types s) = true)).
+
+Definition local_clean0 (s : schema) : Prop :=
   (allow_null = true -> nullsafe s) /\
   s_ref s = None /\
-  (* a format only next to a numeric type: elsewhere the string / array shortcut of the type validator applies (finding class) *)
-  (s_format s = 0 \/ contains k_number (s_types s) || contains k_integer (s_types s) = true \/
-   (* ... or next to a type list that accepts strings (and arrays, when the data may hold arrays): then the shortcut accepts what the list accepts *)
-   (contains k_number (s_types s) || contains k_integer (s_types s) = false /\ contains k_string (s_types s) = true /\
-    (allow_arr = true -> contains k_array (s_types s) = true))) /\
   s_nullable s = false /\ Forall jd (s_enum s) /\
   (s_pattern s = 0 \/ o_re_ok OR (s_pattern s) = true) /\
   array_clean s /\ object_clean s /\ comp_clean s /\ bounds_fin s.
 
+(* a sufficient condition on the schema alone: the type list next to a non-numeric format accepts strings - and arrays, when the
+   data class admits arrays *)
+Definition fmt_clean (s : schema) : Prop :=
+  s_format s = 0 \/ contains k_number (s_types s) || contains k_integer (s_types s) = true \/
+  (contains k_number (s_types s) || contains k_integer (s_types s) = false /\ contains k_string (s_types s) = true /\
+   (allow_arr = true -> contains k_array (s_types s) = true)).
+
+Lemma fmt_clean_fits s d : fmt_clean s -> jd d -> fmt_fits s d.
+Proof.
+  intros [H | [H | [H1 [H2 H3]]]] Hd; [left; exact H | right; left; exact H | right; right].
+  split; [exact H1|]. split; [intros E; rewrite E in H2; discriminate|]. split; [intros _; exact H2|].
+  intros [id [l E]]. subst d. apply jd_arr in Hd. destruct Hd as [Ha _]. apply H3. exact Ha.
+Qed.
+
+Definition local_clean (s : schema) : Prop := local_clean0 s /\ fmt_clean s.
+
 Lemma r_valid_r0 s : r_valid (if opt_skip_schemata opt then new_res else mkRes [] 0 [s_default s] [] []) = true.
 Proof. destruct (opt_skip_schemata opt); reflexivity. Qed.
 
-Lemma body_agree s p q d : local_clean s -> kids2 goods goodu s -> jd d -> Du d ->
-  (forall id l, d = VArr id l -> Forall Ds l) -> (forall id m, d = VObj id m -> subm m) ->
+Lemma body_agree s p q d : local_clean0 s -> fmt_fits s d -> kids2 goods goodu s -> jd d ->
+  (forall c, In c (uk s) -> Du c d) -> (forall c v, app_g s d c v -> Ds c v) ->
   exists r, sv_body OR N opt rec_sp s p q d = Ok r /\ d4_body OR N recd s d = Some (r_valid r).
 Proof.
-  intros [Hns [_ [Hfmt [Hnull [Henum [Hpat [Harr [Hobj [Hcomp Hbf]]]]]]]]] K Hd HDu HDarr HDobj.
+  intros [Hns [_ [Hnull [Henum [Hpat [Harr [Hobj [Hcomp Hbf]]]]]]]] Hfmt K Hd HDu Hg.
   pose proof (enum_agree p s d Hd Henum) as He.
   destruct (props_agree p s d K Hcomp Hd HDu) as [x2 [bc [Hx2 [Hc Hvx2]]]].
   unfold sv_body, d4_body. rewrite Hnull in *. rewrite Hc.
@@ -1075,15 +1141,15 @@ Proof.
   assert (Hr0 : r_valid r0 = true) by apply r_valid_r0.
   set (r1 := if type_applies (s_types s) (s_format s) then r_inc (merge r0 (Some (type_validate N p (s_types s) false (s_format s) d))) else r0).
   assert (Hr1 : r_valid r1 = type_ok N s d).
-  { unfold r1, type_ok. destruct Hfmt as [Hf0 | [Hnum | [Hnn [Hstr Harrt]]]].
+  { unfold r1, type_ok. destruct Hfmt as [Hf0 | [Hnum | [Hnn [Hne [Hstr Harrt]]]]].
     - rewrite Hf0. rewrite <- (type_agree p (s_types s) d Hd). destruct (type_applies (s_types s) 0); [rewrite r_valid_inc, r_valid_merge, Hr0; reflexivity | exact Hr0].
     - rewrite <- (type_agree_numeric p (s_types s) (s_format s) d Hd Hnum).
       assert (Ha : type_applies (s_types s) (s_format s) = true).
       { unfold type_applies. destruct (s_types s); [discriminate | reflexivity]. }
       rewrite Ha, r_valid_inc, r_valid_merge, Hr0. reflexivity.
-    - rewrite <- (type_agree_strfmt p (s_types s) (s_format s) d Hd Hnn Hstr Harrt).
+    - rewrite <- (type_agree_strfmt_gen p (s_types s) (s_format s) d Hd Hnn Hne Hstr Harrt).
       assert (Ha : type_applies (s_types s) (s_format s) = true).
-      { unfold type_applies. destruct (s_types s); [discriminate | reflexivity]. }
+      { unfold type_applies. destruct (s_types s); [destruct (Hne eq_refl) | reflexivity]. }
       rewrite Ha, r_valid_inc, r_valid_merge, Hr0. reflexivity. }
   destruct d as [|b|x|d32 f| | |id l| |id m]; try (exfalso; exact Hd).
   - (* null: only the type and the enumeration are looked at; the schema has no composition keyword *)
@@ -1126,9 +1192,10 @@ Proof.
     end. f_equal. btauto.
   - (* array *)
     apply jd_arr in Hd. destruct Hd as [_ Hd].
-    assert (Hds : Forall jds l).
-    { pose proof (HDarr id l eq_refl) as Hs. clear - Hd Hs. induction Hd as [|x t Hx Ht IH]; [constructor|]. inversion Hs; subst. constructor; [split; assumption | apply IH; assumption]. }
-    destruct (slice_agree p s id l K Harr Hds) as [xs [Hxs Ha]].
+    destruct (slice_agree p s id l K Harr Hd) as [xs [Hxs Ha]].
+    { intros s1 E1. apply Forall_forall. intros v Hv. apply Hg. apply (ag_one s id l s1 v E1 Hv). }
+    { intros ss E2. apply Forall_forall. intros [c v] Hcv. cbn [fst snd]. apply Hg. apply (ag_tuple s id l ss c v E2 Hcv). }
+    { intros a sa ss E3 E2. apply Forall_forall. intros v Hv. apply Hg. apply (ag_additems s id l a sa ss v E3 E2 Hv). }
     cbv beta iota zeta. fold r0. fold r1. rewrite Hx2. cbn [bind is_string_kind is_number_kind is_slice_kind is_map_kind format_applies andb].
     rewrite Hxs. cbn [bind]. eexists. split; [reflexivity|]. rewrite Ha. cbn [numeric_ok string_ok object_ok].
     repeat (rewrite r_valid_inc || rewrite r_valid_merge). rewrite Hr1, He, Hvx2. cbn [deps_verdict].
@@ -1136,7 +1203,7 @@ Proof.
       change (all_opt [Some a; Some b; Some true; Some true; Some c; Some true; Some e]) with (Some (a && (b && (true && (true && (c && (true && (e && true))))))))
     end. f_equal. btauto.
   - (* object *)
-    destruct (object_agree p s id m K Hobj Hd HDu (HDobj id m eq_refl)) as [xo [Hxo Ho]].
+    destruct (object_agree p s id m K Hobj Hd HDu Hg) as [xo [Hxo Ho]].
     cbv beta iota zeta. fold r0. fold r1. rewrite Hx2. cbn [bind is_string_kind is_number_kind is_slice_kind is_map_kind format_applies andb].
     rewrite Hxo. cbn [bind]. eexists. split; [reflexivity|]. rewrite Ho. cbn [numeric_ok string_ok array_ok].
     repeat (rewrite r_valid_inc || rewrite r_valid_merge). rewrite Hr1, He, Hvx2. cbn [deps_verdict].
@@ -1167,7 +1234,7 @@ Fixpoint clean (n : nat) (s : schema) {struct n} : Prop :=
 
 Lemma clean_bounded : forall n s, clean n s -> bounded n s.
 Proof.
-  induction n as [|n IH]; intros s H; [exact H|]. destruct H as [[_ [Href _]] K]. split; [exact Href|].
+  induction n as [|n IH]; intros s H; [exact H|]. destruct H as [[[_ [Href _]] _] K]. split; [exact Href|].
   eapply kids_impl; [|exact K]. exact (IH).
 Qed.
 
@@ -1175,15 +1242,15 @@ Theorem clean_fragment_agrees : forall n fuel s, clean n s -> (n < fuel)%nat -> 
   exists r, sv_validate OR N opt defs fuel s p q d = Ok r /\ d4 OR N defs fuel s d = Some (r_valid r).
 Proof.
   induction n as [|n IH]; intros fuel s Hc Hlt p q d Hd; [destruct Hc|]. destruct fuel as [|f]; [lia|].
-  pose proof (clean_bounded (S n) s Hc) as Hb. destruct Hc as [Hl K]. pose proof Hl as [_ [Href _]].
+  pose proof (clean_bounded (S n) s Hc) as Hb. destruct Hc as [[Hl Hf] K]. pose proof Hl as [_ [Href _]].
   cbn [sv_validate d4]. rewrite (eager_bounded defs (S n) f s Hb); [|lia]. cbn [bind].
   rewrite (resolve_ref_free defs f s Href). cbn [bind]. rewrite Href.
   apply (body_agree OR N opt Hopt_items Hopt_array Hord Heq_sym (sv_validate OR N opt defs f) (d4 OR N defs f)
            (fun c p' q' d' Hd' => no_important_error OR N opt defs f c p' q' d' (jd_nohdr d' Hd'))
-           (fun _ => True) (fun _ => True) s p q d Hl); [|exact Hd|exact I| |].
+           (fun _ _ => True) (fun _ _ => True) s p q d Hl (fmt_clean_fits s d Hf Hd)); [|exact Hd| |].
   - apply (proj1 (kids_kids2 _ s)). eapply kids_impl; [|exact K]. intros c Hcc p' q' d' Hd' _. apply IH; [exact Hcc | lia | exact Hd'].
-  - intros id l _. apply Forall_forall. intros x _. exact I.
-  - intros id m _. apply Forall_forall. intros x _. exact I.
+  - intros c _. exact I.
+  - intros c v _. exact I.
 Qed.
 
 End Whole.
